@@ -83,3 +83,33 @@ func init() {
 		})
 	}
 }
+
+func init() {
+	oracleProfile := func(name string) Profile {
+		return Profile{Name: name, MinTx: 3, MaxTx: 9, Hostile: 0.15, VoteFault: 0.02, GapBig: 0.04, Gov: true,
+			W: map[string]float64{"tip": 14, "submit": 30, "registerSpec": 1.5, "govProposal": 1.2, "govVote": 5, "proposeDispute": 3, "addFee": 2, "addEvidence": 2.5, "vote": 3,
+				"withdrawTokens": 3, "requestAttest": 3, "createReporter": 4, "selectReporter": 4, "unjailReporter": 3}}
+	}
+	Register(&PropDef{ID: "C07", Profile: func(tier string, r *Rng) Profile { return oracleProfile("c07-rounds") },
+		Monitors: func(st *Stats) []Monitor { return []Monitor{NewC07Monitor(st)} }, Cases: tierMap(24, 128), Blocks: tierMap(300, 800)})
+	Register(&PropDef{ID: "C08", Profile: func(tier string, r *Rng) Profile { return oracleProfile("c08-history") },
+		Monitors: func(st *Stats) []Monitor { return []Monitor{NewC08Monitor(st)} }, Cases: tierMap(20, 96), Blocks: tierMap(300, 800)})
+}
+
+func init() {
+	Register(&PropDef{ID: "C10",
+		Profile: func(tier string, r *Rng) Profile {
+			return Profile{Name: "c10-power", MinTx: 3, MaxTx: 9, Hostile: 0.1, VoteFault: 0.06, GapBig: 0.06, Gov: true,
+				W: map[string]float64{"submit": 30, "tip": 8, "delegate": 10, "undelegate": 6, "redelegate": 5, "createReporter": 6, "selectReporter": 8, "switchReporter": 6, "removeSelector": 2,
+					"unjailReporter": 4, "proposeDispute": 3, "vote": 3, "createValidator": 1.5, "unjailVal": 1.5, "govProposal": 1, "govVote": 4, "cancelUnbond": 1.5}}
+		},
+		World:    func(cfg *WorldCfg, r *Rng) { cfg.MaxValidators = uint32(3 + r.Pick(4)); cfg.NumVals = 5; cfg.ExtraVals = 3 },
+		Monitors: func(st *Stats) []Monitor { return []Monitor{NewC10Monitor(st)} }, Cases: tierMap(24, 128), Blocks: tierMap(300, 800)})
+	Register(&PropDef{ID: "C14",
+		Profile: func(tier string, r *Rng) Profile {
+			return Profile{Name: "c14-bridge", MinTx: 2, MaxTx: 6, Hostile: 0.2, VoteFault: 0.0, GapBig: 0.05, Gov: false,
+				W: map[string]float64{"withdrawTokens": 10, "claimDeposits": 8, "submit": 14, "tip": 5, "proposeDispute": 3, "addEvidence": 1, "vote": 2, "undelegate": 0.5, "redelegate": 0.5, "delegate": 2},
+				Fragments: []string{"deposit1", "deposit2", "deposit3"}}
+		},
+		Monitors: func(st *Stats) []Monitor { return []Monitor{NewC14Monitor(st)} }, Cases: tierMap(12, 64), Blocks: tierMap(160, 400)})
+}
